@@ -160,6 +160,12 @@ def check_fixed(case, ctx):
             if not abs(float(p[k]) - v) <= 1e-12 * (max(abs(v), 1.0) if is_loc else abs(v)):
                 ctx.violation(f"fixed_changed:{family}:{k}:{method}", f"{label}: f_{k}={v!r} but after fit {k}={p[k]!r}")
                 return False
+        if method == "mle" and not math.isfinite(ll_start):
+            # data with (numerically) zero likelihood under the fixed values whatever the free ones are (alpha fixed at
+            # 0.1 for data around 27): there is nothing to estimate from, the simplex drifts; only the fixed values
+            # are judged
+            ctx.cls("degenerate_likelihood_under_the_fixed_values")
+            return True
         for k in names:
             if k in fixed:
                 continue
